@@ -262,6 +262,21 @@ def run(chk):
             elif r.returncode == 1 and (not err or made):
                 chk.violate("exit 1 without error text, or with files created", {"program": m}, "loud failure", {"stderr": r.stderr[-200:].decode(errors="replace"), "files": made})
             chk.count("bin_exit_%d" % r.returncode)
+        # ---- command lines that are not text: an argument with bytes that are not UTF-8, in every position (finding F79, repaired:
+        # std::env::args panicked)
+        d = os.path.join(tmp, "argv")
+        os.makedirs(d)
+        open(os.path.join(d, "main.asm"), "w").write("#d8 1\n")
+        for argv in ([b"\xff.asm"], [b"main.asm", b"-o", b"out\xff.bin"], [b"main.asm", b"-f", b"hex\xffstr"], [b"main.asm", b"-d", b"x\xff=1"],
+                     [b"main.asm", b"-q", b"-p", b"--\xfe"], [b"main.asm", b"-t", b"\xff"]):
+            chk.evaluations += 1
+            r = subprocess.run([binary.encode()] + argv, cwd=d, stdout=subprocess.PIPE, stderr=subprocess.PIPE, timeout=20)
+            chk.count("argv_bytes_exit_%d" % r.returncode)
+            if r.returncode not in (0, 1):
+                chk.violate("the driver ends abnormally on an argument that is not UTF-8", {"argv": [a.decode("latin-1") for a in argv]},
+                            "exit 0 or 1", "exit %d: %s" % (r.returncode, r.stderr[-200:].decode(errors="replace")))
+            elif r.returncode == 1 and b"error" not in r.stderr + r.stdout:
+                chk.violate("exit 1 without error text", {"argv": [a.decode("latin-1") for a in argv]}, "loud failure", r.stderr[-200:].decode(errors="replace"))
         # ---- numbers at the edge of a machine word on the *released* binary (no overflow checks: arithmetic wraps where
         # the oracle harness panics) against the model (unbounded integers): a wrap shows as output the model does not have
         M = ["0xffffffffffffffff", "0x10000000000000000", "0x7fffffffffffffff", "0x8000000000000000", "0xfffffffffffffffe"]
